@@ -180,12 +180,17 @@ func (g *gen) classes() []zn.Stmt {
 			{Name: "名", Init: &zn.Str{V: name}},
 			// a scalar default that is never reassigned, only changed in place (自增 / 自减)
 			{Name: "次", Init: num(0)},
+			// another object of the same type (linked objects: a chain link may return a
+			// DIFFERENT receiver of the same type)
+			{Name: "邻", Init: &zn.NullLit{}},
 		}}
 		c.Methods = []zn.FuncDef{
 			{Name: "加", Params: []string{"D"}, Body: []zn.Stmt{show(name+"-加", this("数"), v("D")), set(this("数"), bin("+", this("数"), v("D"))), ret(v("此"))}},
 			{Name: "取", Body: []zn.Stmt{ret(this("数"))}},
 			{Name: "推", Params: []string{"E"}, Body: []zn.Stmt{&zn.ExprStmt{E: &zn.MCall{Root: this("表"), Chain: []zn.Call{{Name: "后增", Args: []zn.Expr{v("E")}}}}}, ret(&zn.Member{Root: this("表"), Name: "长度"})}},
 			{Name: "取表", Body: []zn.Stmt{ret(this("表"))}},
+			{Name: "设邻", Params: []string{"别"}, Body: []zn.Stmt{set(this("邻"), v("别")), ret(v("此"))}},
+			{Name: "取邻", Body: []zn.Stmt{ret(this("邻"))}},
 			{Name: "计", Params: []string{"D"}, Body: []zn.Stmt{&zn.ExprStmt{E: &zn.MCall{Root: this("次"), Chain: []zn.Call{{Name: "自增", Args: []zn.Expr{v("D")}}}}}, ret(this("次"))}},
 			{Name: "减数", Params: []string{"D"}, Body: []zn.Stmt{&zn.ExprStmt{E: &zn.MCall{Root: this("数"), Chain: []zn.Call{{Name: "自减", Args: []zn.Expr{v("D")}}}}}, ret(this("数"))}},
 			{Name: "调", Body: []zn.Stmt{ret(&zn.Call{Name: "双", Args: []zn.Expr{this("数")}})}},
@@ -221,7 +226,19 @@ func (g *gen) mainOps() []zn.Stmt {
 	fresh := 0
 	nm := func(p string) string { fresh++; return fmt.Sprintf("%s%d", p, fresh) }
 	for i := 0; i < n; i++ {
-		switch g.pick(17, "op") {
+		switch g.pick(19, "op") {
+		case 17, 18: // a chain whose intermediate link returns another object (maybe of the same type)
+			if len(g.objs) < 2 {
+				continue
+			}
+			a := g.objs[g.pick(len(g.objs), "la")]
+			b := g.objs[g.pick(len(g.objs), "lb")]
+			out = append(out, &zn.ExprStmt{E: &zn.MCall{Root: v(a), Chain: []zn.Call{{Name: "设邻", Args: []zn.Expr{v(b)}}}}})
+			out = append(out, show("link-add", &zn.MCall{Root: v(a), Chain: []zn.Call{{Name: "取邻"}, {Name: "加", Args: []zn.Expr{g.numArg(1)}}, {Name: "取"}}}))
+			out = append(out, show("link-get", &zn.MCall{Root: v(a), Chain: []zn.Call{{Name: "取邻"}, {Name: "取"}}}), g.showObj(a), g.showObj(b))
+			out = append(out, show("link-count", &zn.MCall{Root: v(a), Chain: []zn.Call{{Name: "取邻"}, {Name: "计", Args: []zn.Expr{g.numArg(1)}}}}), g.showObj(a), g.showObj(b))
+			g.labels["chain-to-other-receiver"] = true
+			g.labels["chain"] = true
 		case 16: // in-place change of a scalar property: this object's only
 			if len(g.objs) == 0 {
 				continue
